@@ -125,13 +125,14 @@ def model_list(model):
         return None
     out = {}
     for path, blocks in files.items():
-        out[path] = sorted((K.canon({"name": b["attrs"].get("name", "(unnamed)"), "line": b["tag"][0], "column": b["tag"][1],
-                                     "is_content_modified": b["content_modified"], "attributes": b["attrs"]}) for b in blocks))
+        # `list` prints the blocks of a file in source order
+        out[path] = [K.canon({"name": b["attrs"].get("name", "(unnamed)"), "line": b["tag"][0], "column": b["tag"][1],
+                              "is_content_modified": b["content_modified"], "attributes": b["attrs"]}) for b in blocks]
     return out
 
 
 def canon_list(obj):
-    return {p: sorted(K.canon(b) for b in bl) for p, bl in obj.items()}
+    return {p: [K.canon(b) for b in bl] for p, bl in obj.items()}
 
 
 def args_for_case(case, sub=None):
